@@ -154,7 +154,7 @@ Definition conformant_fs (puf : bool) (s : v9state) (f : fs_spec) : Prop :=
   | FOTemplates ts pad => Forall wf_otemplate ts /\ (length pad < 6)%nat
   | FOData id scope opts pad =>
       (id < 65536)%N /\ id <> v9_template_id /\ id <> v9_options_template_id
-      /\ lookup id (v9_t s) = None      (* the id names one template (else see K_C06_kind_change) *)
+      /\ lookup id (v9_t s) = None      (* the id names one template (always so in a state a parser can reach, since repair 4fcfdcb) *)
       /\ exists t, lookup id (v9_o s) = Some t
            /\ Forall (fun f => scope_known (sf_type f) = true /\ (0 < sf_len f)%N) (ot_scope t)
            /\ Forall (fun f => (0 < tf_len f)%N) (ot_opts t)
